@@ -44,10 +44,14 @@ from .contract import Contract, Registry, NS, REG, contract as _contract
 
 
 class GenSpec(object):
-    def __init__(self, each, final='yield'):
+    def __init__(self, each, final='yield', post_apply=None):
         assert final in ('yield', 'return')
         self.each = each            # lambda ns, v -> VBool: what every non-completion yield satisfies
         self.final = final
+        # post_apply(ex, st, env): run on the normal outcome at a call site.  Only for facts that `ensures` states but
+        # that the havoc-and-assume scheme cannot express because the KIND of a field changes (int -> None): the
+        # hook stores the value, the contract's own verification proves it (keep the two in step).
+        self.post_apply = post_apply
 
     def is_final(self, v):
         return self.final == 'yield' and not isinstance(v, (VInt, VBool))
@@ -84,8 +88,11 @@ def final_of(ns):
     return ns.result.items[-1]
 
 
-def gen_contract(qual, each, final='yield', final_type=None, ensures=None, setup=None, **kw):
-    spec = GenSpec(each, final)
+def gen_contract(qual, each, final='yield', final_type=None, ensures=None, setup=None, post_apply=None, assumed=False,
+                 **kw):
+    """assumed=True: the contract is NOT registered (no verification task, not applied by name): the caller installs
+    it for an external callee with `assume_generator` and must list it as trusted."""
+    spec = GenSpec(each, final, post_apply)
 
     def setup2(ex, st, ns):
         if setup is not None:
@@ -99,8 +106,20 @@ def gen_contract(qual, each, final='yield', final_type=None, ensures=None, setup
             if not (isinstance(r, VList) and r.items and spec.is_final(r.items[-1])):
                 return VBool(z3.BoolVal(False))          # the generator ended without a completion value
             return ensures(ns) if ensures is not None else VBool(z3.BoolVal(True))
+    if assumed:
+        return Contract(qual, gen=spec, apply_fn=_defer, ensures=ens, setup=setup2,
+                        result=TYields(final_type if final == 'yield' else None), **kw)
     return _contract(qual, gen=spec, apply_fn=_defer, ensures=ens, setup=setup2,
                      result=TYields(final_type if final == 'yield' else None), **kw)
+
+
+def assume_generator(c):
+    """install the unverified generator contract `c` as the model of the external callee c.qual"""
+    def h(ex, args, kwargs, st, fr, node):
+        return _defer(c, ex, args, kwargs, st, fr, node)
+    REG.external[c.qual] = h
+    REG.no_inline.add(c.qual)
+    return c
 
 
 # ------------------------------------------------------------------ verification side: yields
@@ -193,6 +212,8 @@ def _generator_loop(reg, ex, node, it, st, fr):
         if o.kind != 'normal':
             res.append(o)
             continue
+        if spec.post_apply is not None:
+            spec.post_apply(ex, o.st, env)
         if spec.final == 'yield':
             fv = o.val.items[-1]
             for oa in ex.assign(node.target, fv, o.st, fr):
@@ -258,7 +279,7 @@ _SHIFT_OR_OK = [None]
 
 
 def prove_shift_or_lemma():
-    """(t << k) | q == (t << k) + q  for 0 <= t < 2^(32-k), 0 <= q < 2^k, k = 1..16, in 34-bit BV arithmetic
+    """(t << k) | q == (t << k) + q  for 0 <= t < 2^(32-k), 0 <= q < 2^k, k = 1..16, in 48-bit BV arithmetic
     (for larger t the identity holds for unbounded ints by the same disjoint-bits argument; the executor states
     it for t >= 0)."""
     if _SHIFT_OR_OK[0]:
@@ -277,3 +298,21 @@ def prove_shift_or_lemma():
 
 
 prove_shift_or_lemma()
+
+
+def apply_now(ex, qual, args, st, fr, kwargs=None):
+    """Scenario helper: run a generator under a gen_contract to completion from state `st` by its contract
+    (requires obligation, raise outcomes, normal outcome whose value is the VList described in TYields)."""
+    c = ex.reg.contracts[qual][0]
+    saved = c.apply_fn
+    c.apply_fn = None
+    try:
+        outs = c.apply(ex, args, kwargs or {}, st, fr, None)
+    finally:
+        c.apply_fn = saved
+    if c.gen.post_apply is not None:
+        env = ex.bind_params(source.load(c.qual), args, kwargs or {}, st, fr)
+        for o in outs:
+            if o.kind == 'normal':
+                c.gen.post_apply(ex, o.st, env)
+    return outs
